@@ -99,6 +99,25 @@ func p384Adapter() *adapter {
 		return xy{x, y}
 	}
 	ad.isIdentity = func(p pt) bool { return c.IsAtInfinity(p.(xy).x, p.(xy).y) }
+	ad.intoOps = []intoOp{
+		// the big.Int objects of z are overwritten in place: nothing else may share them
+		{"z.x.Set(x.x),z.y.Set(x.y)", func(z, x, y pt, k *big.Int) {
+			vx, vy := new(big.Int).Set(x.(xy).x), new(big.Int).Set(x.(xy).y)
+			z.(xy).x.Set(vx)
+			z.(xy).y.Set(vy)
+		}, intoX},
+		{"z.Set(Add(x,y))", func(z, x, y pt, k *big.Int) {
+			rx, ry := c.Add(x.(xy).x, x.(xy).y, y.(xy).x, y.(xy).y)
+			z.(xy).x.Set(rx)
+			z.(xy).y.Set(ry)
+		}, intoSum},
+		{"z.Set(ScalarBaseMult(k))", func(z, x, y pt, k *big.Int) {
+			rx, ry := c.ScalarBaseMult(be(k, 48))
+			z.(xy).x.Set(rx)
+			z.(xy).y.Set(ry)
+		}, intoK},
+		{"z.SetInt64(0)", func(z, x, y pt, k *big.Int) { z.(xy).x.SetInt64(0); z.(xy).y.SetInt64(0) }, intoZero},
+	}
 	ad.observers = []observer{
 		{"IsOnCurve", func(p, q pt) string {
 			return fmt.Sprint(c.IsOnCurve(p.(xy).x, p.(xy).y) || c.IsAtInfinity(p.(xy).x, p.(xy).y))
@@ -265,6 +284,33 @@ func nistGroupAdapter(g group.Group, ref *curves.WCurve) *adapter {
 	ad.neg = func(p pt) pt { return g.NewElement().Neg(p.(group.Element)) }
 	ad.mul = func(k *big.Int, p pt) pt { return g.NewElement().Mul(p.(group.Element), sc(k)) }
 	ad.mulgen = func(k *big.Int) pt { return g.NewElement().MulGen(sc(k)) }
+	type ge = group.Element
+	ad.intoOps = []intoOp{
+		{"z.Neg(x)", func(z, x, y pt, k *big.Int) { z.(ge).Neg(x.(ge)) }, intoNeg},
+		{"z.Add(x,y)", func(z, x, y pt, k *big.Int) { z.(ge).Add(x.(ge), y.(ge)) }, intoSum},
+		{"z.Dbl(x)", func(z, x, y pt, k *big.Int) { z.(ge).Dbl(x.(ge)) }, intoDbl},
+		{"z.Mul(x,k)", func(z, x, y pt, k *big.Int) { z.(ge).Mul(x.(ge), sc(k)) }, intoMul},
+		{"z.MulGen(k)", func(z, x, y pt, k *big.Int) { z.(ge).MulGen(sc(k)) }, intoK},
+		{"z.Set(x)", func(z, x, y pt, k *big.Int) { z.(ge).Set(x.(ge)) }, intoX},
+		{"z.Set(Identity)", func(z, x, y pt, k *big.Int) { z.(ge).Set(g.Identity()) }, intoZero},
+		{"z.Set(Generator)", func(z, x, y pt, k *big.Int) { z.(ge).Set(g.Generator()) }, intoOne},
+		{"z.CMov(1,x)", func(z, x, y pt, k *big.Int) { z.(ge).CMov(1, x.(ge)) }, intoX},
+		{"z.CMov(0,x)", func(z, x, y pt, k *big.Int) { z.(ge).CMov(0, x.(ge)) }, intoKeep},
+		{"z.CSelect(1,x,y)", func(z, x, y pt, k *big.Int) { z.(ge).CSelect(1, x.(ge), y.(ge)) }, intoX},
+		{"z.CSelect(0,x,y)", func(z, x, y pt, k *big.Int) { z.(ge).CSelect(0, x.(ge), y.(ge)) }, intoY},
+		{"z.UnmarshalBinary(x.MarshalBinary())", func(z, x, y pt, k *big.Int) {
+			b, _ := x.(ge).MarshalBinary()
+			if err := z.(ge).UnmarshalBinary(b); err != nil {
+				panic(err)
+			}
+		}, intoX},
+		{"z.UnmarshalBinary(x.MarshalBinaryCompress())", func(z, x, y pt, k *big.Int) {
+			b, _ := x.(ge).MarshalBinaryCompress()
+			if err := z.(ge).UnmarshalBinary(b); err != nil {
+				panic(err)
+			}
+		}, intoX},
+	}
 	ad.observers = []observer{
 		{"MarshalBinary", func(p, q pt) string { b, _ := p.(group.Element).MarshalBinary(); return hex.EncodeToString(b) }, wantEnc},
 		{"MarshalBinaryCompress+Unmarshal", func(p, q pt) string {
